@@ -124,4 +124,13 @@ def c06(tier, seed):
                            bids=(8,), spreads=(0, 2), dqs=(-1, 2), lots=[{"F5": 1}, {}],
                            invariants=["SelfFinancing"], properties=[])
     broker_check.explore_and_replay(rep, m, props_broker.clauses_of("C06") | {"nlv"})
+    # the whole deposit is spent, so accruals happen on a cash balance of exactly zero before cash comes back
+    m = broker_check.model("years-zero-cash", ["S5"], ["quote", "trade", "accrue"], 6, fees="free", rate=F(1, 8),
+                           markup=F(1, 16), steps=(1, 2), maxclk=4, bids=(8,), spreads=(0,), dqs=(-1, 1), deposit=F(40),
+                           invariants=["SelfFinancing"], properties=[])
+    broker_check.explore_and_replay(rep, m, props_broker.clauses_of("C06") | {"nlv"})
+    # the environment: the reference rate is published once, at the first timestep (reset seeds the rate book with 0 first)
+    from . import envfull_check
+    ms = [x for x in envfull_check.c07_models(tier) if x["name"] == "yearly-interest"]
+    envfull_check.run_models(rep, ms, {"env_interest"})
     return rep.finish()
